@@ -59,6 +59,7 @@ def opsC17 : Handler := fun st fields =>
       if r == .toValue then
         match toValueOut liveNumpy liveRules d q with
         | .ok .pyfloat => some (st, "ok\tpyfloat\t8")
+        | .ok .pycomplex => some (st, "ok\tpycomplex\t16")
         | .ok (.ndarray x) => some (st, dtOut (.ok x))
         | .error e => some (st, s!"err\t{e.str}")
       else some (st, dtOut (routeDtype liveNumpy liveRules r d q))
@@ -84,6 +85,7 @@ def opsC17 : Handler := fun st fields =>
     | some d, some vs =>
       if route == "copy" then some (st, s!"ok\t{if inUnitsWarns liveRules d vs then 1 else 0}")
       else if route == "inplace" then some (st, s!"ok\t{if convertToUnitsWarns liveRules d vs then 1 else 0}")
+      else if route == "inbase" then some (st, s!"ok\t{if routeWarns liveRules .inBase d vs then 1 else 0}")
       else none
     | _, _ => none
   | ["c17.value", route, k, s, e, f, o] =>
@@ -91,7 +93,7 @@ def opsC17 : Handler := fun st fields =>
     | some d, some e, some f, some o =>
       if route == "copy" then some (st, valOut (inUnitsElem liveNumpy liveRules floatOps d e f o))
       else if route == "inplace" then some (st, valOut (convertToUnitsElem liveNumpy liveRules floatOps d e f o))
-      else if route == "inbase" then some (st, valOut (inBaseElem liveNumpy floatOps d e f o))
+      else if route == "inbase" then some (st, valOut (inBaseElem liveNumpy liveRules floatOps d e f o))
       else if route == "binop" then some (st, valOut (binaryOperandElem liveNumpy liveRules floatOps d e f))
       else none
     | _, _, _, _ => none
